@@ -415,8 +415,9 @@ func (s *Store) mergeSegStacks(footer *Footer, splicePoint int,
 
 		if splicePoint > 0 {
 			rvBase = &segmentStack{
-				options: footerSS.options,
-				a:       footerSS.a[0:splicePoint],
+				options:  footerSS.options,
+				a:        footerSS.a[0:splicePoint],
+				incarNum: higher.incarNum,
 			}
 		}
 	}
@@ -442,8 +443,23 @@ func (s *Store) mergeSegStacks(footer *Footer, splicePoint int,
 			}
 		}
 
-		rv.childSegStacks[cName], _ =
+		var childBase *segmentStack
+		rv.childSegStacks[cName], childBase =
 			s.mergeSegStacks(childFooter, splicePoint, newStack)
+		if childBase != nil {
+			// The segments of the child collection that are not being
+			// compacted are the base of the child's compaction.
+			if rvBase == nil {
+				rvBase = &segmentStack{
+					options:  higher.options,
+					incarNum: higher.incarNum,
+				}
+			}
+			if len(rvBase.childSegStacks) == 0 {
+				rvBase.childSegStacks = make(map[string]*segmentStack)
+			}
+			rvBase.childSegStacks[cName] = childBase
+		}
 	}
 
 	return rv, rvBase
@@ -559,14 +575,17 @@ func (s *Store) writeSegments(newSS, base *segmentStack,
 			compactFooter.ChildFooters = make(map[string]*Footer)
 		}
 
-		// TODO: IMPORTANT: See MB-29664 - merge-operators, child
-		// collections, and partial/leveled compaction does not work
-		// correctly.  You need to use full compaction if you're using
-		// merge-operators with child collections.  The fix will be to
-		// compute and provide the right childSegStackBase to the
-		// recursive writeSegments() calls.
-		//
+		// MB-29664 - the segments of the child collection that are
+		// not being compacted (see mergeSegStacks) are the base against
+		// which the child's merge operations get resolved.
 		var childSegStackBase *segmentStack
+		if base != nil {
+			childSegStackBase = base.childSegStacks[cName]
+			if childSegStackBase != nil &&
+				childSegStackBase.incarNum != childSegStack.incarNum {
+				childSegStackBase = nil // A prior incarnation.
+			}
+		}
 
 		childFooter, err := s.writeSegments(childSegStack, childSegStackBase,
 			frefCompact, fileCompact, includeDeletes, syncAfterBytes)
